@@ -88,6 +88,9 @@ struct FlushWaker {
     wakes: AtomicU64,
     nexts_at_wake: AtomicU64,
     ctl: Arc<StreamCtl>,
+    /// the request this waker waits for, and where to note the moment it is woken
+    fid: u64,
+    hist: History,
     /// Some: what this waker does, once, on whichever thread wakes it, before it reports the wake-up (an executor
     /// that polls inline, a task that asks for the next flush as soon as the last one is through)
     chain: std::sync::Mutex<Option<Box<dyn FnOnce() + Send>>>,
@@ -100,6 +103,7 @@ impl Wake for FlushWaker {
     fn wake_by_ref(self: &Arc<Self>) {
         // called synchronously by whoever completes the flush (the writer thread): remember how
         // far the stream had got at that moment
+        self.hist.log(K::Note(format!("flush_woken:{}", self.fid)));
         let chained = self.chain.lock().ok().and_then(|mut g| g.take());
         if let Some(f) = chained {
             f();
@@ -229,6 +233,8 @@ fn drive_flush(sh: &Shared, fid: u64, fut: FlushWait, op: &Value, start_nexts: u
             wakes: AtomicU64::new(0),
             nexts_at_wake: AtomicU64::new(0),
             ctl: sh.ctl.clone(),
+            fid,
+            hist: sh.hist.clone(),
             // (a migrating future: the latest waker has it)
             chain: std::sync::Mutex::new(None),
         })
@@ -293,6 +299,31 @@ fn drive_flush(sh: &Shared, fid: u64, fut: FlushWait, op: &Value, start_nexts: u
                     return;
                 }
                 let _ = detsim::block_on_key(fw.key, Some(detsim::clock_ns() + slice_ns), detsim::site());
+            }
+            "idle" => {
+                // the queue is idle (nothing appended yet, nobody else there): the writer gets eight full park cycles
+                // (each: one flush interval and an allowance of simulated time, then the chance to run until it
+                // blocks again) to serve the request. The code as written needs one.
+                if polls > 8 {
+                    drop(fut);
+                    sh.hist.log(K::FlushCancelled { fid });
+                    sh.hist.log(K::Note(format!("idle_flush_never_completed:{fid}")));
+                    return;
+                }
+                let cycle = ju(op, "cycle_ns", 1_000_000_000);
+                if let detsim::Wake::TimedOut = detsim::block_on_key(fw.key, Some(detsim::clock_ns() + cycle), detsim::site()) {
+                    if let Some(w) = *sh.writer_tid.lock().unwrap() {
+                        let mut guard = 0;
+                        loop {
+                            let (blocked, finished, _) = detsim::thread_status(w);
+                            if blocked || finished || guard >= 20_000 {
+                                break;
+                            }
+                            detsim::sleep_ns(1_000);
+                            guard += 1;
+                        }
+                    }
+                }
             }
             "try" => {
                 let d = deadline.unwrap_or(0);
@@ -640,6 +671,10 @@ fn queue_main(plan: &Value, slot: Arc<Mutex<Option<QueueRun>>>) {
         });
     }
 
+    // plan key `pre_ops`: what the main thread does with the new, still untouched queue before anybody else has it
+    let pre_ops: Vec<Value> = ja(plan, "pre_ops").to_vec();
+    run_ops(&sh, &handle, 0, &pre_ops);
+
     // producers
     let mut normal = vec![];
     let mut pressure = vec![];
@@ -825,6 +860,8 @@ pub struct Digest {
     pub flush_done: BTreeMap<u64, (u64, bool)>,
     pub flush_gave_up: BTreeMap<u64, u64>,
     pub flush_cancelled: BTreeMap<u64, u64>,
+    /// request -> first time a waker registered for it was woken (the moment the queue completed it)
+    pub flush_woken: BTreeMap<u64, u64>,
     pub last_handle_drop: Option<u64>,
     pub states: HashSet<u64>,
 }
@@ -902,7 +939,11 @@ pub fn digest(h: &[Ev]) -> Digest {
                 pending_flush -= 1;
             }
             K::HandleCloneDropped => d.last_handle_drop = Some(e.seq),
-            K::Note(_) => {}
+            K::Note(n) => {
+                if let Some(fid) = n.strip_prefix("flush_woken:").and_then(|x| x.parse::<u64>().ok()) {
+                    d.flush_woken.entry(fid).or_insert(e.seq);
+                }
+            }
         }
         // abstract state: <event kind, queue fill bucket, pending flush requests, shutdown>
         let fill = appended_done.saturating_sub(nexts);
@@ -1484,6 +1525,18 @@ fn flush_from_writer_stratum(mut plan: Value) -> Value {
     plan
 }
 
+/// One plan in sixteen: before any entry has been appended (and before any other thread exists) the main thread asks
+/// the new queue for a flush and waits for it.
+fn idle_flush_stratum(mut plan: Value) -> Value {
+    let h = mix(ju(plan.get("sched").unwrap_or(&Value::Null), "seed", 0), 0x1d1e);
+    let stalls = plan.get("sched").and_then(|s| s.get("stall")).map(|x| x.is_object()).unwrap_or(false);
+    if h % 16 == 0 && !stalls {
+        // (no thread is starved by the scheduler in these runs, so that "the writer has had its turn" can be told)
+        plan["pre_ops"] = json!([{"op":"flush","mode":"idle","cycle_ns": forget_settle_ns(&plan)}]);
+    }
+    plan
+}
+
 fn small_timeout_stratum(mut plan: Value) -> Value {
     let h = mix(ju(plan.get("sched").unwrap_or(&Value::Null), "seed", 0), 0x5a11);
     if h % 5 == 0 && ju(&plan, "shutdown_timeout_ns", 0) == 1_000_000_000_000_000 && plan.get("shutdown_timeout_huge").is_none() && plan.get("pre_end").map(|p| p.is_array()).unwrap_or(false) {
@@ -1865,7 +1918,19 @@ pub fn check_c04(plan: &Value, run: &QueueRun, d: &Digest) -> Option<Violation> 
         let appended = d.entries.values().filter(|e| e.ret.is_some()).count() as u64;
         appended > ju(plan, "capacity", 1)
     };
-    for (fid, (c, first_poll)) in &d.flush_done {
+    // a request is complete from the moment the queue wakes the task that waits for it (the task may take its time to
+    // notice): that moment stands for the completion where it was observed - also for futures that were polled once
+    // and then kept, un-awaited
+    let mut done: BTreeMap<u64, (u64, bool)> = d.flush_done.clone();
+    for (fid, w) in &d.flush_woken {
+        match done.get_mut(fid) {
+            Some((c, _)) => *c = (*c).min(*w),
+            None => {
+                done.insert(*fid, (*w, false));
+            }
+        }
+    }
+    for (fid, (c, first_poll)) in &done {
         let Some(r) = d.flush_req.get(fid) else { continue };
         // after shutdown: must complete on the first poll
         if let Some((x, _)) = d.drop_end {
@@ -1926,6 +1991,16 @@ pub fn check_c04(plan: &Value, run: &QueueRun, d: &Digest) -> Option<Violation> 
                     format!(
                         "flush #{fid} completed at #{c}, but the stream was not flushed between the last covered entry (#{last_next_end}) and the completion"
                     ),
+                ));
+            }
+        }
+    }
+    for e in &run.hist {
+        if let K::Note(n) = &e.k {
+            if let Some(fid) = n.strip_prefix("idle_flush_never_completed:") {
+                return Some(Violation::new(
+                    "flush_not_completed_on_idle_queue",
+                    format!("flush #{fid} was requested on a new queue that nothing had been appended to; the writer thread has since parked and woken 8 times (a flush interval and more each time) and the request is still pending"),
                 ));
             }
         }
@@ -2209,7 +2284,7 @@ impl Scenario for QueueFlushBarrier {
         3
     }
     fn generate(&self, rng: &mut Rng, tier: Tier) -> Value {
-        flush_from_writer_stratum(small_timeout_stratum(huge_timeout_stratum(gen_c04_safety(rng, tier))))
+        idle_flush_stratum(flush_from_writer_stratum(small_timeout_stratum(huge_timeout_stratum(gen_c04_safety(rng, tier)))))
     }
     fn run(&self, plan: &Value) -> Report {
         let (out, run) = run_queue_plan(plan);
@@ -2239,7 +2314,7 @@ impl Scenario for QueueFlushLiveness {
         1
     }
     fn generate(&self, rng: &mut Rng, tier: Tier) -> Value {
-        huge_timeout_stratum(gen_c04_liveness(rng, tier))
+        idle_flush_stratum(huge_timeout_stratum(gen_c04_liveness(rng, tier)))
     }
     fn run(&self, plan: &Value) -> Report {
         let (out, run) = run_queue_plan(plan);
